@@ -1,7 +1,6 @@
 package main
 
 import (
-	"sync"
 	"bufio"
 	"bytes"
 	"encoding/json"
@@ -13,6 +12,7 @@ import (
 	"sort"
 	"strconv"
 	"strings"
+	"sync"
 	"time"
 
 	"verif/engine/interp"
@@ -521,6 +521,19 @@ func checkMain(args []string) int {
 			}
 		}
 	}
+	// paths cut by the wall limit under active known-finding labels: accepted
+	// only when every label is an open finding of this property
+	for _, j := range jobs {
+		for labels, n := range j.TruncatedKnown {
+			for _, k := range strings.Split(labels, ",") {
+				if f, ok := known[k]; !ok || f.Status != "open" || f.Property != id {
+					inconclusive = append(inconclusive, fmt.Sprintf("%s: %d paths hit the wall limit under label %s, which is not an open finding", j.Spec.Name(), n, k))
+				} else if knownSeen[k] == nil && len(j.TruncWitness) > 0 {
+					knownSeen[k] = j.TruncWitness[0]
+				}
+			}
+		}
+	}
 	// report
 	exit := 0
 	var kids []string
@@ -605,7 +618,7 @@ func firstLine(s string) string {
 func writeEvidence(pd *propDef, tier string, seed int64, jobs []*interp.Job, ws []*interp.Witness, validated int,
 	inconclusive []string, wall time.Duration, known []string, P *interp.Program) {
 	states, trans, queries, sat, unsat, unknown := 0, int64(0), 0, 0, 0, 0
-	asserts, disch, trunc := 0, 0, 0
+	asserts, disch, trunc, truncKnown := 0, 0, 0, 0
 	var stime time.Duration
 	funcs := map[string]bool{}
 	models := map[string]int{}
@@ -623,6 +636,9 @@ func writeEvidence(pd *propDef, tier string, seed int64, jobs []*interp.Job, ws 
 		asserts += j.Asserts
 		disch += j.Discharged
 		trunc += j.Truncated
+		for _, n := range j.TruncatedKnown {
+			truncKnown += n
+		}
 		for f := range j.Funcs {
 			funcs[f] = true
 		}
@@ -683,10 +699,11 @@ func writeEvidence(pd *propDef, tier string, seed int64, jobs []*interp.Job, ws 
 		"assertions":                    asserts,
 		"assertions_discharged_unsat":   disch,
 		"truncated_paths":               trunc,
-		"inconclusive":                  inconclusive,
-		"known_findings_reproduced":     known,
-		"jobs":                          jobSummaries,
-		"witnesses_replayed":            len(ws),
+		"paths_cut_by_wall_limit_under_open_findings": truncKnown,
+		"inconclusive":              inconclusive,
+		"known_findings_reproduced": known,
+		"jobs":                      jobSummaries,
+		"witnesses_replayed":        len(ws),
 	}
 	if P != nil {
 		cov["ssa_load_s"] = P.LoadTime.Seconds()
